@@ -459,7 +459,7 @@ def errClass : Cli.Err → String
   | .colorParse _ => "color-parse" | .colorInvalidUtf8 => "invalid-utf8"
   | .couldNotReadFromStdin => "no-stdin" | .colorArgRequired => "color-arg-required"
   | .couldNotParseNumber _ => "number" | .noColorPickerFound => "no-picker" | .stdoutClosed => "stdout-closed"
-  | .gradientNumber => "other" | .gradientColorCount => "other"
+  | .gradientNumber => "other" | .gradientColorCount => "other" | .distinctCount => "other" | .distinctFixed => "other"
 
 /-- `cli <sub> <nargs> args… <ncolors> colors… <nstdin> lines…` → `ok <exit> <stdout> <class> <message>` -/
 def opCli (args : List String) : String :=
